@@ -168,6 +168,7 @@ func runC02(c *Ctx) {
 	c.Rule("DET-ENCODER", "protobuf marshalling entry points are used only inside protoencoding; wire marshalling is Deterministic; detrand is disabled", 4)
 	c.Rule("ENTROPY", "no math/rand, time.Now or multi-way select in output-producing packages outside the frozen allow-list", 1)
 	c.Rule("LOCKSET", "thread.globalParallelism is read under RLock/Lock and written under Lock", 2)
+	c.Rule("INPUT-ORDER", "values hashed into a digest do not depend on the order in which modules were listed", 1)
 
 	usedTriage := map[string]bool{}
 	usedAppend := map[string]bool{}
@@ -234,6 +235,7 @@ func runC02(c *Ctx) {
 		}
 	}
 
+	ruleDepDigestsSorted(c, "INPUT-ORDER")
 	c02Sources(c)
 	c02SortConsumersCheck(c)
 	c02GoAgg(c)
